@@ -84,7 +84,7 @@ KNOWN: dict[tuple[str, str, str], int] = {
     ("visit/model/dataclass_generator.py", "generate", "Maps from '{api_name}'"): 10,     # renamed field (trailing underscore): same composition
     # range-aware raise helper: {error_class} from a literal tuple, {message} a literal of the two callers - the scan
     # below verifies that every caller passes a plain string constant
-    ("visit/endpoint/generators/response_handler_generator.py", "_write_range_aware_raise", 'raise {error_class}(response=response, message="{message}", status_code=response.status_code)'): 0,
+    ("visit/endpoint/generators/response_handler_generator.py", "_write_range_aware_raise", 'raise {error_ref}(response=response, message="{message}", status_code=response.status_code)'): 0,   # error_ref: literal class name or exceptions.<literal class name>
     ("visit/endpoint/generators/response_handler_generator.py", "_write_range_aware_raise", 'raise HTTPError(response=response, message="{message}", status_code=response.status_code)'): 0,
     ("visit/model/dataclass_generator.py", "_get_field_default", "'\"' + {escaped_inner_content} + '\"'"): 8,
     # every use of `.default` (any rendering of a default into code needs a model; branch structure of _get_field_default:
@@ -135,7 +135,7 @@ KNOWN: dict[tuple[str, str, str], int] = {
     ("types/services/type_service.py", "_format_resolved_type", '"{python_type} | None"'): 0,               # whole annotation quoted (forward reference)
     ("types/services/type_service.py", "_format_resolved_type", '"{python_type}"'): 0,
     # ---- data-flow sites (a local assigned from spec text handed to a code sink without an f-string)
-    ("visit/client_visitor.py", "visit", "flow: tag_candidates[key].append(tag)"): 0,                       # tag de-duplication table; the tag reaches code at site 13
+    ("visit/client_visitor.py", "tag_tuples", "flow: tag_candidates[key].append(tag)"): 0,                       # tag de-duplication table; the tag reaches code at site 13
     ("visit/client_visitor.py", "_generate_client_implementation", "flow: docstring_lines.append(escape_docstring_text("): 15,
     ("visit/client_visitor.py", "_generate_client_implementation", "flow: docstring_lines.append(desc_clean)"): 16,
     ("visit/docs_visitor.py", "visit", "flow: tag_writer.write_line(desc)"): 0,                               # markdown
